@@ -367,7 +367,7 @@ pub fn run(cfg: &Cfg) -> (Log, Meta) {
     }));
     let syears: Vec<i64> = match cfg.tier {
       Tier::Thorough => (2..=9997).collect(),
-      Tier::Quick => (2..=9997).filter(|y| y % 20 == (cfg.seed % 20) as i64 || *y <= 12 || (1580..=1584).contains(y)).collect(),
+      Tier::Quick => (2..=9997).filter(|y| y % 20 == (cfg.seed % 20) as i64 || *y <= 30 || (236..=242).contains(y) || (1580..=1584).contains(y)).collect(),
     };
     log.merge(par_range(syears.len(), 2, |i, l| sixty_months(syears[i], l)));
     let nh = cfg.tier.pick(15_000usize, 250_000usize);
@@ -386,7 +386,7 @@ pub fn run(cfg: &Cfg) -> (Log, Meta) {
       cfg.tier.pick(2_000, 200_000),
       match cfg.tier {
         Tier::Thorough => 9996,
-        Tier::Quick => 520,
+        Tier::Quick => (2..=9997).filter(|y| y % 20 == (cfg.seed % 20) as i64 || *y <= 30 || (236..=242).contains(y) || (1580..=1584).contains(y)).count(),
       },
       cfg.tier.pick(15_000, 250_000),
       crate::history::WALK_TEXT
